@@ -194,6 +194,10 @@ def tmpl(src):
     return t
 
 
+def variant_shape(b, typ, mapping, variant):
+    return (len(b['l']) * 3 + variant + len(typ) + (2 if mapping else 0)) % 5
+
+
 def observe(b, typ, mapping, variant):
     isort = any(s['a'] == 0 for s in b['spec'])
     pairs = isort and variant % 2 == 1
@@ -219,8 +223,12 @@ def observe(b, typ, mapping, variant):
     else:
         body = '<dtml-var id>,'
     src = '<dtml-in seq%s>%s</dtml-in>' % (opts, body)
+    # the sequence as the caller hands it over: a list, a tuple, or something that can only be iterated (a generator, an
+    # iterator, a dict's values): sorting shows a permutation of all its elements whatever it is
+    shape = variant_shape(b, typ, mapping, variant)
+    given = {0: seq, 1: tuple(seq), 2: (x for x in seq), 3: iter(seq), 4: {i: x for i, x in enumerate(seq)}.values()}[shape]
     try:
-        out = tmpl(src)(seq=seq, sk=sa, cf=user_cmp(typ))
+        out = tmpl(src)(seq=given, sk=sa, cf=user_cmp(typ))
     except Exception as e:  # noqa
         return {'ok': 0, 'order': [], 'err': '%s: %s' % (type(e).__name__, str(e)[:80]), 'src': src, 'typ': typ}
     toks = [x for x in out.split(',') if x]
